@@ -223,6 +223,9 @@ func main() {
 		a.n++
 		rep.Obligations++
 		rep.SolverMs += o.Ms
+		if *verbose && o.Ms > 3000 {
+			fmt.Printf("SLOW %dms %s [%s] %s path=%s\n", o.Ms, o.Name, o.Backend, o.Status, o.Path)
+		}
 		if o.Status == "proved" {
 			a.ok++
 			rep.Discharged++
